@@ -108,7 +108,7 @@ ObsOK(d) == /\ d.ver /\ d.stage = "none"
 \* a stage marker on disk means the data of every earlier stage is on disk (markers travel WITH their data)
 StageInv(d) ==
     LET above == {g \in d.blk \cup d.hdo : g > d.sp} IN
-    /\ d.stage \in {"r2", "r3", "r4", "r5"} => d.blk \cap {g \in d.blk : g > d.sp} = {}
+    /\ d.stage \in {"r2", "r3", "r4", "r5"} => {g \in d.blk : g > d.sp} = {}
     /\ d.stage = "r3" => d.flat[Other(d.pfx)] = d.sp
     /\ d.stage \in {"r4", "r5"} => (d.flat[d.pfx] = d.sp /\ d.cur = d.sp /\ d.hdr = d.sp /\ above = {})
     /\ d.stage = "r5" => \A g \in d.roots : g <= d.sp
@@ -156,7 +156,7 @@ GCTarget(new) == ((new - MTB) \div GCP) * GCP
 GCDue(old, new) == GCOn /\ new >= MTB /\ GCTarget(new) > GCP /\ (new \div GCP) # (old \div GCP)
 
 Flush == /\ Idle /\ view # disk
-         /\ IF "TipAlone" \in Dev /\ view.cur # disk.cur /\ pc = <<>> /\ op.kind # "tip"
+         /\ IF "TipAlone" \in Dev /\ view.cur # disk.cur
               THEN /\ disk' = [disk EXCEPT !.cur = view.cur]          \* deviation: tip pointer first, rest later
                    /\ pc' = <<"rest">> /\ op' = [NoOp EXCEPT !.kind = "tip"]
               ELSE /\ disk' = view
